@@ -182,6 +182,39 @@ def interpreter_variants(out: Outcome, rng, classes: list) -> None:
                 r.update(x)
         reqs.append({"class": cls, "params": p, "stream": xs, "seed": None})
         here.append(r.obs)
+    # every class once more with a HAIR-TRIGGER configuration behind a long warm-up (the weakest thresholds its configuration accepts, min_num_instances 30) on a stream with
+    # jumps: whatever the detector would say without its guards (warm-up, validation) is then different from what it says with them, at many steps
+    HAIR = {"DDM": {"warning_level": 0.01, "drift_level": 0.02}, "RDDM": {"warning_level": 0.01, "drift_level": 0.02, "min_concept_size": 10, "max_concept_size": 60},
+            "EDDM": {"alpha": 0.999, "beta": 0.998, "level": 0.01, "min_num_misclassified_instances": 12}, "ECDDWT": {"warning_level": 0.01, "lambda_": 0.9},
+            "HDDMA": {"alpha_d": 0.9, "alpha_w": 1.0, "two_sided_test": True}, "HDDMW": {"alpha_d": 0.9, "alpha_w": 1.0, "two_sided_test": True, "lambda_": 0.5},
+            "ADWIN": {"clock": 1, "delta": 0.99, "m": 2, "min_window_size": 1}, "STEPD": {"alpha_d": 0.9, "alpha_w": 0.95},
+            "CUSUM": {"lambda_": 0.0, "delta": 0.0}, "PageHinkley": {"lambda_": 0.0, "delta": 0.0, "alpha": 1.0}, "GeometricMovingAverage": {"lambda_": 0.0, "alpha": 0.5},
+            "BOCD": {"hazard": 0.5}}
+    for cls in classes:
+        if cls not in HAIR:
+            continue
+        p = {**HAIR[cls]} if cls == "EDDM" else {**HAIR[cls], "min_num_instances": 30}      # (EDDM's warm-up is counted in errors: min_num_misclassified_instances)
+        xs = []
+        for seg in range(4):
+            base = gen.stream_for(rng, cls, 24)
+            if cls in dets.REAL_VALUED:
+                base = [abs(v) + 8.0 * (seg % 2) for v in base] if cls == "ADWIN" else [v + 8.0 * (seg % 2) for v in base]
+            elif cls in dets.UNIT_INTERVAL:
+                base = [float(seg % 2)] * 24
+            else:
+                base = [seg % 2] * 24
+            xs += base
+        xs.insert(50, "r")
+        r = dets.Runner("a", cls, p)
+        if r.det is None:
+            continue
+        for x in xs:
+            if x == "r":
+                r.reset()
+            else:
+                r.update(x)
+        reqs.append({"class": cls, "params": p, "stream": xs, "seed": None})
+        here.append(r.obs)
     for flags in ([], ["-O"]):
         r = subprocess.run([sys.executable] + flags + [str(VERIF / "harness" / "alone.py")], input=json.dumps({"batch": reqs}), capture_output=True, text=True, timeout=900)
         if r.returncode != 0:
